@@ -82,6 +82,9 @@ func verifyOne(p *Program, sp *Specs, fs *FuncSpec, want, outDir string, workers
 		for _, o := range g.obs {
 			if o.Auto {
 				autos = append(autos, o)
+			} else if want == "C06" && !strings.HasPrefix(o.Kind, "panic") && !o.Cover {
+				// the panic-freedom view: the other obligations of these functions belong to (and are
+				// discharged under) the properties that own the contracts
 			} else {
 				rest = append(rest, o)
 			}
